@@ -113,7 +113,21 @@ fn damage(rng: &mut Rng, r: &Row) -> (String, &'static str) {
         let i = *rng.pick(&digits);
         cs.iter().enumerate().map(|(j, c)| if j == i { *rng.pick(NONHEX) } else { *c }).collect()
     };
-    match rng.below(16) {
+    match rng.below(19) {
+        16 | 17 | 18 => {
+            // a field replaced by long text with multi-byte characters at every byte offset (a property column
+            // that holds a description because a field was deleted and the description has a comma, etc.)
+            let fill = *rng.pick(&['\u{E9}', '\u{201C}', '\u{4E2D}', '\u{1F600}']);
+            let mut text = "A".repeat(rng.below(4));
+            for _ in 0..rng.range(8, 40) {
+                text.push(if rng.chance(1, 3) { 'x' } else { fill });
+            }
+            match rng.below(3) {
+                0 => (format!("{},{},{}", r.cp_field, text, r.model.desc), "property column holds long non-ASCII text"),
+                1 => (format!("{},{},{}", text, r.prop_field, r.model.desc), "code point column holds long non-ASCII text"),
+                _ => (format!("{},LATIN CAPITAL LETTER {} \u{201C}WITH GRAVE\u{201D}, SEE {}", r.cp_field, text, r.cp_field), "property field deleted, description with a comma slides in"),
+            }
+        }
         0 => (format!("{},{}", r.prop_field, r.model.desc.replace(',', " ")), "code point field deleted"),
         1 => (format!("{},{}", r.cp_field, r.model.desc.replace(',', " ")), "property field deleted"),
         2 => (format!("{},{}", r.cp_field, r.prop_field), "description field deleted"),
